@@ -387,13 +387,17 @@ def parent_main(check, tier, seed, argv0, module_name):
     open_mech = {f['mechanism']: f for f in findings if f['status'] == 'open'}
     real = []
     known_seen = {}
+    known_total = {}
+    for r in results:
+        for k, v in r.get('known', {}).items():
+            known_total[k] = known_total.get(k, 0) + v
     for v in viols:
         if any(f['clause'] == 'harness-error' for f in v['fails']):
             inconclusive.append('harness error in case %s/%s: %s' % (v['class'], v['index'], v['fails'][0]['msg']))
             write_replay(pid, v)
             continue
         if v.get('mechanism') in open_mech:
-            known_seen[v['mechanism']] = known_seen.get(v['mechanism'], 0) + 1
+            known_seen[v['mechanism']] = known_total.get(str(v['mechanism']), 1)
             continue
         real.append(v)
 
